@@ -16,9 +16,9 @@ REGISTRY = {}       # "path::qualname" -> Contract
 class NS:
     """attribute namespace (parameters at entry, loop state ...)"""
 
-    def __init__(self, d=None, **kw):
-        self.__dict__.update(d or {})
-        self.__dict__.update(kw)
+    def __init__(_ns, d=None, **kw):
+        _ns.__dict__.update(d or {})
+        _ns.__dict__.update(kw)
 
     def __getattr__(self, k):
         raise AttributeError(f"spec namespace has no {k!r} (have {sorted(self.__dict__)})")
@@ -150,14 +150,40 @@ def At(x, *idx):
     raise Undecided(f"At of {x!r}")
 
 
+def ForAll2(f, lo, hi, names=("i", "j")):
+    """forall lo <= i < j < hi. f(i, j)   (pairwise form: no induction needed to use it)"""
+    if not is_sym(lo) and not is_sym(hi) and hi - lo <= 5:
+        return And(*[f(a, b) for a in range(lo, hi) for b in range(a + 1, hi)])
+    i = _fresh_bound(names[0])
+    j = _fresh_bound(names[1])
+    CUR.ctx.in_quant += 1
+    try:
+        body = f(i, j)
+    finally:
+        CUR.ctx.in_quant -= 1
+    if isinstance(body, bool):
+        return True if body else Not(And(to_z3(lo) <= i, i < j, j < to_z3(hi)))
+    return z3.ForAll([i, j], z3.Implies(z3.And(to_z3(lo) <= i, i < j, j < to_z3(hi)), body))
+
+
 def strictly_increasing(a, n=None):
+    """pairwise: forall i<j. a[i] < a[j]"""
     n = Len(a) if n is None else n
-    return ForAll(lambda i: At(a, i) < At(a, i + 1), 0, simp(to_z3(n) - 1) if is_sym(n) else n - 1)
+    return ForAll2(lambda i, j: ops.scalar_cmp("Lt", At(a, i), At(a, j)), 0, n)
+
+
+def strictly_decreasing(a, n=None):
+    n = Len(a) if n is None else n
+    return ForAll2(lambda i, j: ops.scalar_cmp("Gt", At(a, i), At(a, j)), 0, n)
 
 
 def sorted_nondecr(a):
     n = Len(a)
-    return ForAll(lambda i: At(a, i) <= At(a, i + 1), 0, simp(to_z3(n) - 1) if is_sym(n) else n - 1)
+    return ForAll2(lambda i, j: ops.scalar_cmp("LtE", At(a, i), At(a, j)), 0, n)
+
+
+def pairwise_distinct(a):
+    return ForAll2(lambda i, j: ops.scalar_cmp("NotEq", At(a, i), At(a, j)), 0, Len(a))
 
 
 def as_arr(x):
@@ -225,6 +251,15 @@ def equiv(a, b, strict_kind=False):
         return And(shp, el)
     if isinstance(a, SSeries) and isinstance(b, SSeries):
         return And(equiv(a.index, b.index), equiv(a.values, b.values))
+    if isinstance(a, SFrame) and isinstance(b, SFrame):
+        return And(equiv(a.index, b.index), equiv(a.values, b.values))
+    if isinstance(a, SObj) and isinstance(b, SObj) and (getattr(a, "structural", False) or getattr(b, "structural", False)):
+        if a.cls is not b.cls:
+            return False
+        keys = set(a.attrs) | set(b.attrs)
+        if set(a.attrs) != set(b.attrs):
+            return False
+        return And(*[equiv(a.attrs[k], b.attrs[k]) for k in sorted(keys)])
     if isinstance(a, (SObj, AbstractObj, Opaque)) or isinstance(b, (SObj, AbstractObj, Opaque)):
         return a is b
     if isinstance(a, (ExtClass,)) and isinstance(b, ExtClass):
@@ -279,8 +314,10 @@ def apply_contract(I, ctr, fv, values):
         res = ctr.result(I, A)
     else:
         res = None
-    for (nm, fn) in ctr.ensures:
-        ctx.assume(fn(A, res))
+    for ens in ctr.ensures:
+        if len(ens) > 2 and not ens[2].get("modular", True):
+            continue      # proved for the callee, but not needed (and costly) at call sites
+        ctx.assume(ens[1](A, res))
     return res
 
 
@@ -315,6 +352,10 @@ class Builder:
     def assume(self, f):
         self.ctx.assume(f)
 
+    def hint(self, name, f):
+        """prove an auxiliary fact as its own obligation, then use it as a hypothesis"""
+        self.ctx.prove(f"hint:{name}", "lemma", f, assume_after=True)
+
     def arr(self, name, n=None, dtype="int", kind="ndarray", ndim=1, shape=None):
         """uninterpreted array with symbolic (non-negative) shape"""
         if shape is None:
@@ -347,3 +388,11 @@ class Builder:
         o = Opaque(tag)
         o.distinct = distinct
         return o
+
+
+def register_alias(target, base_target):
+    """a method defined in a base class, verified for a subclass: contract key names the subclass"""
+    ALIASES[target] = base_target
+
+
+ALIASES = {}
